@@ -124,7 +124,9 @@ class Report:
         all_inst = [i for r in self.rules.values() for i in r.instances]
         viol = [i for i in all_inst if i.verdict == "violation"]
         known = [i for i in all_inst if i.verdict == "known"]
-        vacuous = [r for r in self.rules.values() if len(r.instances) < r.min_instances]
+        # a rule that found fewer sites than confirmed by hand is analysis-broken - unless it already reports a violation
+        # (a rule that stops at the first construct it cannot analyse has few instances and one honest finding)
+        vacuous = [r for r in self.rules.values() if len(r.instances) < r.min_instances and not any(i.verdict == "violation" for i in r.instances)]
         if self.quiet:
             self.violations = viol
             self.vacuous = vacuous
